@@ -5,8 +5,11 @@
   entry is what a fresh parse of its key gives.  Under the invariant a cached `parse` returns what
   the uncached one returns; the invariant is preserved by every call and every policy that only
   forgets or reorders entries.  `eval` goes through the same `parse`.
+  [B] `cache_transparent`: lifted to EVERY sequence of parse / list_names / eval calls by a simulation between the
+  parser with the cache and the parser without (`Sim`, `sim_step`): same results, errors and worlds, call by call.
 -/
 import Sq.Session
+import SqProps.C11
 namespace SqProps.C17
 open Sq
 
@@ -131,6 +134,121 @@ theorem list_literal_fresh (vs : List Val) (s : BState) :
 theorem dict_literal_fresh (vm : Nat) (k : List Frame) (w : World) :
     enter (.dict []) vm k w = mkRet (.ref w.heap.size) k { w with heap := w.heap.push (.dict []) } := by
   simp [enter, Heap.alloc]
+
+/-! ### [B] transparency over whole call sequences (parse, list_names and eval, any order, any outcomes) -/
+
+/-- `parse` never touches the evaluation state -/
+theorem parse_keeps_world (pf : ParseFn) (pol : Policy) (s : Session) (expr : List Char) :
+    (parseCall pf pol s expr).2.world = s.world ∧ (parseCall pf pol s expr).2.budgets = s.budgets := by
+  simp only [parseCall, parseCallWith]
+  cases hc : s.cache with
+  | none =>
+    simp only []
+    cases pf (applyResets Resets.all s.lex) expr <;> exact ⟨rfl, rfl⟩
+  | some e =>
+    simp only []
+    cases hf : cacheFind e expr with
+    | some t => exact ⟨rfl, rfl⟩
+    | none =>
+      simp only []
+      cases pf (applyResets Resets.all s.lex) expr <;> simp [hc]
+
+/-- one API call -/
+inductive ACall
+  | parse (expr : List Char)
+  | names (expr : List Char) (limit : Option Nat)
+  | eval (expr : List Char) (namesAddr budget : Nat)
+
+/-- what the caller observes of one call -/
+inductive AOut
+  | parsed (r : Proto.ParseOut)
+  | names (r : List (List Char) × Option LexErr)
+  | evaluated (r : EvalOut) (w : World)        -- result AND the whole world afterwards (names mappings, host objects, log)
+
+def apiCall (pf : ParseFn) (pol : Policy) (fuel : Nat) (s : Session) : ACall → AOut × Session
+  | .parse e => let r := parseCall pf pol s e; (.parsed r.1, r.2)
+  | .names e l => let r := listNamesCall s e l; (.names r.1, r.2)
+  | .eval e a b => let r := evalCall pf pol fuel s e a b; (.evaluated r.1 r.2.world, r.2)
+
+/-- a parser with a cache satisfying the invariant vs. a parser without cache, same evaluation state;
+    the lexer fields may differ (a cache hit does not lex) -/
+def Sim (pf : ParseFn) (s s' : Session) : Prop :=
+  s.world = s'.world ∧ s.budgets = s'.budgets ∧ s'.cache = none ∧ ∃ e, s.cache = some e ∧ CacheOK pf e
+
+theorem sim_parse (pf : ParseFn) (pol : Policy) (hp : PolicyOK pol) (s s' : Session) (h : Sim pf s s') (expr : List Char) :
+    (parseCall pf pol s expr).1 = (parseCall pf pol s' expr).1 ∧
+    Sim pf (parseCall pf pol s expr).2 (parseCall pf pol s' expr).2 := by
+  obtain ⟨hw, hb, hn, e, hc, hok⟩ := h
+  have h1 := parse_cached_eq_uncached pf pol s expr e hc hok
+  have h2 := SqProps.C11.parse_indep pf pol { s with cache := none } s' expr rfl hn
+  obtain ⟨e', hc', hok'⟩ := parse_preserves_cache_ok pf pol s expr e hc hok hp
+  obtain ⟨w1, b1⟩ := parse_keeps_world pf pol s expr
+  obtain ⟨w2, b2⟩ := parse_keeps_world pf pol s' expr
+  refine ⟨h1.trans h2, ?_, ?_, SqProps.C11.parse_keeps_no_cache pf pol s' expr hn, e', hc', hok'⟩
+  · rw [w1, w2, hw]
+  · rw [b1, b2, hb]
+
+/-- **one call**: same observation, and the two parsers stay related -/
+theorem sim_step (pf : ParseFn) (pol : Policy) (hp : PolicyOK pol) (fuel : Nat) (s s' : Session) (h : Sim pf s s')
+    (c : ACall) :
+    (apiCall pf pol fuel s c).1 = (apiCall pf pol fuel s' c).1 ∧
+    Sim pf (apiCall pf pol fuel s c).2 (apiCall pf pol fuel s' c).2 := by
+  cases c with
+  | parse expr =>
+    obtain ⟨h1, h2⟩ := sim_parse pf pol hp s s' h expr
+    exact ⟨by simp only [apiCall]; rw [h1], h2⟩
+  | names expr limit =>
+    obtain ⟨hw, hb, hn, e, hc, hok⟩ := h
+    refine ⟨?_, ?_⟩
+    · simp only [apiCall]
+      rw [SqProps.C11.list_names_indep s s' expr limit]
+    · exact ⟨hw, hb, by simp [apiCall, listNamesCall, listNamesCallWith, hn],
+             e, by simp [apiCall, listNamesCall, listNamesCallWith, hc], hok⟩
+  | eval expr a b =>
+    obtain ⟨h1, h2⟩ := sim_parse pf pol hp s s' h (Str.rstrip expr)
+    obtain ⟨hw, hb, hn, e, hc, hok⟩ := h2
+    simp only [apiCall, evalCall, evalCallWith]
+    have e1 : parseCallWith Resets.all pf pol s (Str.rstrip expr) = parseCall pf pol s (Str.rstrip expr) := rfl
+    have e2 : parseCallWith Resets.all pf pol s' (Str.rstrip expr) = parseCall pf pol s' (Str.rstrip expr) := rfl
+    rw [e1, e2]
+    generalize parseCall pf pol s (Str.rstrip expr) = p at h1 hw hb hc
+    generalize parseCall pf pol s' (Str.rstrip expr) = p' at h1 hw hb hn
+    obtain ⟨r, s1⟩ := p
+    obtain ⟨r', s1'⟩ := p'
+    simp only at h1 hw hb hn hc
+    subst h1
+    cases r with
+    | ok ast =>
+      simp only []
+      rw [hw, hb]
+      cases (runUntil fuel (initCfg s1'.world s1'.budgets a b ast)).ctl <;>
+        exact ⟨rfl, rfl, rfl, hn, e, hc, hok⟩
+    | lexErr c => exact ⟨by simp [hw], hw, hb, hn, e, hc, hok⟩
+    | synErr x y => exact ⟨by simp [hw], hw, hb, hn, e, hc, hok⟩
+    | resErr m => exact ⟨by simp [hw], hw, hb, hn, e, hc, hok⟩
+    | unmodelled u => exact ⟨by simp [hw], hw, hb, hn, e, hc, hok⟩
+
+def runCalls (pf : ParseFn) (pol : Policy) (fuel : Nat) : Session → List ACall → List AOut
+  | _, [] => []
+  | s, c :: cs => (apiCall pf pol fuel s c).1 :: runCalls pf pol fuel (apiCall pf pol fuel s c).2 cs
+
+/-- **the parse cache is transparent**: for EVERY sequence of parse / list_names / eval calls (any texts, any
+    outcomes, any budgets, any names mappings), every retention policy that only forgets or reorders entries (plain
+    dict, bounded LRU, always evicting, …) and every pre-warmed cache whose entries are genuine parses, the parser with
+    the cache and the parser without it produce the same results, errors, and worlds (names mappings, host objects, log) -/
+theorem cache_transparent (pf : ParseFn) (pol : Policy) (hp : PolicyOK pol) (fuel : Nat) (cs : List ACall) :
+    ∀ (s s' : Session), Sim pf s s' → runCalls pf pol fuel s cs = runCalls pf pol fuel s' cs := by
+  induction cs with
+  | nil => intro s s' _; rfl
+  | cons c cs ih =>
+    intro s s' h
+    obtain ⟨h1, h2⟩ := sim_step pf pol hp fuel s s' h c
+    simp only [runCalls]
+    rw [h1, ih _ _ h2]
+
+/-- non-vacuity: a fresh parser with an empty cache and one without are related -/
+theorem fresh_sim (pf : ParseFn) (w : World) : Sim pf (Session.fresh (some []) w) (Session.fresh none w) :=
+  ⟨rfl, rfl, rfl, [], rfl, empty_cache_ok pf⟩
 
 /-- non-vacuity: a pre-warmed cache satisfying the invariant exists for the model's own parser -/
 example : CacheOK (fun st src => Proto.parseLazy st src) [] := empty_cache_ok _
